@@ -23,7 +23,9 @@ M, H = al.M, al.H
 
 
 def passes(tier):
-    return ["pin"] if tier == "quick" else ["pin", "asan"]
+    # alloca-debug: every TMP block is a heap block of the installed allocator, so a return between TMP_MARK and TMP_FREE on a fault
+    # path shows in the block accounting at any operand size (the cache entry is shared with C04 and C14)
+    return ["pin", "alloca-debug"] if tier == "quick" else ["pin", "asan", "alloca-debug"]
 
 
 def pack(v, order, size, endian, nails):
@@ -282,6 +284,40 @@ def spaces(tier, variant, seed):
         z.s.d = None
         leak_check(R, "mpz_inp_raw", before)
         return ("hdr", cls, min(a, 9), sz < 0, nd)
+
+    # non-canonical magnitudes: any number of leading zero bytes (whole zero limbs at the top after reading) followed by any tail
+    def lz_cases(blk):
+        total = blk
+        for nz in range(0, total + 1):
+            for tail in (0, 1, 2):
+                for neg in (0, 1):
+                    yield (total, nz, tail, neg)
+
+    def lz_one(case, R):
+        total, nz, tail, neg = case
+        e = env()
+        rest = total - nz
+        body = bytes(nz) + bytes((({0: 0x01, 1: 0xFF, 2: 0x80}[tail] if i == 0 else (i * 29 + 7) & 0xFF) for i in range(rest)))
+        hdr = ((-total if neg else total) & 0xFFFFFFFF).to_bytes(4, "big")
+        data = hdr + body + b"tail"
+        ev = int.from_bytes(body, "big")
+        if neg:
+            ev = -ev
+        before = lib.live_blocks()
+        z = lib.Z(-12345678901234567890123)
+        fp = S.v_open_read(e["vs"], data, len(data), -1, 0, 0, 0)
+        n = f_inp_raw(z.p, fp)
+        nxt = S.v_getc(fp)
+        S.v_fclose(fp)
+        if n != 4 + total or z.get() != ev or z.wf() or nxt != ord("t"):
+            R.fail("mpz_inp_raw", "%d-byte magnitude with %d leading zero bytes (sign %d): returned %d, value %s, %s, next byte %d" % (total, nz, -1 if neg else 1, n, "ok" if z.get() == ev else "WRONG", z.wf() or "well formed", nxt))
+        z.clear()
+        z.s.d = None
+        leak_check(R, "mpz_inp_raw", before)
+        return ("lz", total, min(nz, 17), tail, neg)
+
+    sp.append(Space("raw_leading_zero_bytes", list(range(0, 41)) + [64, 65, 127, 128, 129], lz_cases, lz_one,
+                    "mpz_inp_raw on magnitudes of 0..40 (and 64..129) bytes with EVERY count of leading zero bytes (non-canonical streams; whole zero limbs on top), both signs: value, normalised result, byte count, stream position"))
 
     sp.append(Space("raw_headers", [(a, b) for a in HB for b in HB], hd_cases, hd_one,
                     "mpz_inp_raw on every 4-byte header over {00,01,7f,80,ff}^4 (announced size <= 64 MiB) followed by 0..8 data bytes"))
